@@ -340,6 +340,11 @@ func (p proxyHandler) writeErrorResponse(rw http.ResponseWriter, req *http.Reque
 	res := maybeConnectErrorResponse(err)
 	if res == nil {
 		res = p.errorResponse(req, err)
+	} else {
+		// The response was built for the CONNECT request issued by the transport,
+		// it answers the client's request: framing (HEAD, protocol version,
+		// Connection: close) must follow that one.
+		res.Request = req
 	}
 	if err := p.modifyResponse(res); err != nil {
 		log.Error(req.Context(), "error modifying error response", "error", err)
